@@ -11,7 +11,7 @@ from ..cfg import describe_path
 from .. import util as U
 from .. import locks as L
 from .. import flow as F
-from ..dtable import Interp, fmt_val
+from ..dtable import Interp, fmt_val, same_bool
 
 PIPE = 'wpull.pipeline.pipeline'
 
@@ -313,7 +313,7 @@ def run(ctx):
     waitc = [c for c in U.calls(pw.node) if dotted(c.func) == 'asyncio.wait']
     okw = any(norm_text(U.kwarg(c, 'return_when') or ast.Constant(value=None)) == 'asyncio.FIRST_COMPLETED' and norm_text(c.args[0]) == 'self._worker_tasks' for c in waitc)
     ck.expect(okw, 'C13-D5', pw.qual, 'waits for the first finished worker of self._worker_tasks', 'worker wait changed', pw.loc())
-    okspawn = any(isinstance(w, ast.While) and norm_text(w.test) == 'len(self._worker_tasks) < self._concurrency'
+    okspawn = any(isinstance(w, ast.While) and same_bool(w.test, 'len(self._worker_tasks) < self._concurrency')
                   and any('self._worker.process()' in norm_text(b) for b in w.body) and any(U.like(b, 'self._worker_tasks.add(L_t)') for b in w.body)
                   for w in walk_no_nested(pw.node))
     ck.expect(okspawn, 'C13-D5', pw.qual, 'workers spawned while fewer than the concurrency', 'worker spawning changed', pw.loc())
@@ -360,20 +360,35 @@ def run(ctx):
             'process': [('self._state == PipelineState.stopped', 'PipelineState.running')],
             'stop': [('self._state == PipelineState.running', 'PipelineState.stopping')],
             '_shutdown_processing': [(None, 'PipelineState.stopped')]}
-    ck.expect(trans == want, 'C13-D6', pl.qual, 'state writers: %s' % trans,
+    def _same_trans(got, exp):
+        if set(got) != set(exp):
+            return False
+        for m_, lst in exp.items():
+            g_ = got[m_]
+            if len(g_) != len(lst):
+                return False
+            for (gg, gv), (eg, evv) in zip(g_, lst):
+                if gv != evv:
+                    return False
+                if (gg is None) != (eg is None):
+                    return False
+                if gg is not None and not same_bool(ast.parse(gg, mode='eval').body, eg):
+                    return False
+        return True
+    ck.expect(_same_trans(trans, want), 'C13-D6', pl.qual, 'state writers: %s' % trans,
               'Pipeline._state transitions differ from stopped->running->stopping->stopped: %s' % trans)
     pr = repo.func(PIPE + ':Pipeline.process')
     wl = [w for w in walk_no_nested(pr.node) if isinstance(w, ast.While)]
-    okwl = len(wl) == 1 and norm_text(wl[0].test) == 'self._state == PipelineState.running' \
+    okwl = len(wl) == 1 and same_bool(wl[0].test, 'self._state == PipelineState.running') \
         and [norm_text(b) for b in wl[0].body] == ['yield from self._process_one_worker()']
     after = [norm_text(b) for b in pr.node.body if getattr(b, 'lineno', 0) > (wl[0].end_lineno if wl else 0)]
     okwl = okwl and after == ['yield from self._shutdown_processing()']
     ck.expect(okwl, 'C13-D6', pr.qual, 'loop only while running, then shut down', 'Pipeline.process loop/shutdown changed', pr.loc())
-    okstart = any(isinstance(i, ast.If) and norm_text(i.test) == 'self._state == PipelineState.stopped' and any(
+    okstart = any(isinstance(i, ast.If) and same_bool(i.test, 'self._state == PipelineState.stopped') and any(
         '_run_producer_wrapper()' in norm_text(b) for b in i.body) for i in walk_no_nested(pr.node))
     ck.expect(okstart, 'C13-D6', pr.qual, 'producer task started when leaving stopped', 'producer start changed', pr.loc())
     st = repo.func(PIPE + ':Pipeline.stop')
-    okst = any(isinstance(i, ast.If) and norm_text(i.test) == 'self._state == PipelineState.running'
+    okst = any(isinstance(i, ast.If) and same_bool(i.test, 'self._state == PipelineState.running')
                and {'self._producer.stop()', 'self._kill_workers()'} <= {norm_text(b.value) for b in i.body if isinstance(b, ast.Expr)}
                for i in walk_no_nested(st.node))
     ck.expect(okst, 'C13-D6', st.qual, 'stop(): producer.stop() and one pill per worker', 'Pipeline.stop no longer stops producer and workers', st.loc())
@@ -386,7 +401,7 @@ def run(ctx):
     astop = repo.func(APP + '.stop')
     okas = False
     for i in walk_no_nested(astop.node):
-        if isinstance(i, ast.If) and norm_text(i.test) == 'self._state == ApplicationState.running':
+        if isinstance(i, ast.If) and same_bool(i.test, 'self._state == ApplicationState.running'):
             for j in walk_no_nested(i):
                 if isinstance(j, ast.If) and norm_text(j.test) == 'self._current_pipeline' and any(
                         norm_text(b) == 'self._current_pipeline.stop()' for b in j.body):
